@@ -12,11 +12,50 @@ theorem noTrailing_of_endsSlash {p : Path} (h : endsSlash p = false) : NoTrailin
   subst e
   simp [endsSlash] at h
 
+theorem endsSlash_eq {p : Path} (h : endsSlash p = true) : p = p.dropLast ++ ['/'] := by
+  have hne : p ≠ [] := by intro e; subst e; simp [endsSlash] at h
+  have hl : p.getLast hne = '/' := by
+    simp only [endsSlash, beq_iff_eq] at h
+    rw [List.getLast?_eq_some_getLast hne] at h
+    exact Option.some.inj h
+  rw [← hl]
+  exact (List.dropLast_concat_getLast hne).symm
+
+theorem stripN_spec : ∀ (n : Nat) (p : Path), ∃ k, p = stripN n p ++ List.replicate k '/' := by
+  intro n
+  induction n with
+  | zero => intro p; exact ⟨0, by simp [stripN]⟩
+  | succ n ih =>
+    intro p
+    simp only [stripN]
+    split
+    · rename_i he
+      obtain ⟨k, hk⟩ := ih p.dropLast
+      refine ⟨k + 1, ?_⟩
+      rw [List.replicate_succ', ← List.append_assoc, ← hk]
+      exact endsSlash_eq he
+    · exact ⟨0, by simp⟩
+
+theorem noDbl_of_hasDbl {p : Path} (h : hasDbl p = false) : NoDbl p := by
+  rintro ⟨s, t, e⟩
+  induction s generalizing p with
+  | nil =>
+    simp at e
+    subst e
+    simp [hasDbl] at h
+  | cons a r ih =>
+    cases p with
+    | nil => simp at e
+    | cons b q =>
+      simp only [List.cons_append, List.cons.injEq] at e
+      simp only [hasDbl, Bool.or_eq_false_iff] at h
+      exact ih h.2 e.2
+
 theorem cfgOKB_sound {c : Cfg} {s : St} (h : cfgOKB c s = true) : CfgOK c s := by
   simp only [cfgOKB, Bool.and_eq_true, List.all_eq_true, Bool.or_eq_true, Bool.not_eq_true',
     decide_eq_true_eq] at h
   obtain ⟨⟨⟨⟨h1, h2⟩, h3⟩, h4⟩, h5⟩ := h
-  refine ⟨?_, ?_, ?_, ⟨h4, h5⟩⟩
+  refine ⟨?_, ?_, ?_, ?_, ⟨h4, h5⟩⟩
   · intro a ha
     unfold Cfg.filesOf
     cases hl : c.argFiles.lookup a with
@@ -27,15 +66,31 @@ theorem cfgOKB_sound {c : Cfg} {s : St} (h : cfgOKB c s = true) : CfgOK c s := b
       · rw [ha] at h; cases h
       · simpa using h
   · intro a f hf
-    unfold Cfg.filesOf at hf
+    unfold Cfg.filesOf at hf ⊢
     cases hl : c.argFiles.lookup a with
     | none => rw [hl] at hf; cases hf
     | some fs =>
       rw [hl] at hf
+      simp only [Option.getD_some] at hf ⊢
       have hm := lookup_some_mem hl
-      exact noTrailing_of_endsSlash (h2 (a, fs) hm f hf)
+      rcases h2 (a, fs) hm f hf with hc | hc
+      · exact Or.inl (noTrailing_of_endsSlash hc)
+      · cases he : endsSlash f with
+        | false => exact Or.inl (noTrailing_of_endsSlash he)
+        | true =>
+          obtain ⟨k, hk⟩ := stripN_spec f.length f
+          refine Or.inr ⟨stripSlashes f, by simpa using hc.1, noTrailing_of_endsSlash hc.2, k, ?_, hk⟩
+          cases k with
+          | zero =>
+            exfalso
+            have h0 : f = stripSlashes f := by simpa [stripSlashes] using hk
+            rw [← h0, he] at hc
+            exact absurd hc.2 (by decide)
+          | succ k => omega
   · intro d hd
-    exact noTrailing_of_endsSlash (h3 d hd)
+    exact noTrailing_of_endsSlash (h3 d hd).1
+  · intro d hd
+    exact noDbl_of_hasDbl (h3 d hd).2
 
 theorem pathKindsB_sound {disk : List DiskEnt} (h : pathKindsB disk = true) : PathKinds disk := by
   simp only [pathKindsB, List.all_eq_true, Bool.or_eq_true, decide_eq_true_eq, bne_iff_ne, ne_eq] at h
